@@ -25,7 +25,9 @@ Perms == { <<1,2,3>>, <<1,3,2>>, <<2,1,3>>, <<2,3,1>>, <<3,1,2>>, <<3,2,1>> }
 Defects == {"none", "missing", "duplicate", "unknown", "count+1", "count-1"}
 
 \* channel labels of vectors 1 (N), 2 (E), 3 (Z) per format and naming variant
-TraceNames == << <<"BHN", "BHE", "BHZ">>, <<"HHN", "HHE", "HHZ">>, <<"EHN", "EHE", "EHZ">>, <<"N", "E", "Z">> >>
+\* the last two variants mix band / instrument prefixes: only the LAST letter of a channel code names the component
+TraceNames == << <<"BHN", "BHE", "BHZ">>, <<"HHN", "HHE", "HHZ">>, <<"EHN", "EHE", "EHZ">>, <<"N", "E", "Z">>,
+                 <<"HHN", "HHE", "BHZ">>, <<"BHN", "HNE", "HNZ">> >>
 PeerNames  == << <<"360", "090", "UP">>, <<"000", "090", "VER">>, <<"HNN", "HNE", "HNZ">>, <<"BLN", "BLE", "BLZ">>,
                  <<"45", "135", "UP">>, <<"0", "90", "UP">>, <<"090", "180", "UP">>, <<"180", "270", "UP">>, <<"315", "045", "VER">> >>
 NVariants(f) == IF f = "peer" THEN Len(PeerNames) ELSE IF f \in {"mseed1", "mseed3", "sac_le", "sac_be"} THEN Len(TraceNames) ELSE 1
